@@ -91,17 +91,13 @@ inline void check_report(const rx::Registry& r, std::vector<Viol>& out) {
     if (all.none != all.cnone || all.ambig != all.cambig)
         COUNT("concrete_differs", 1);
     COUNT("report_fields", 1);
-    // words of dispatch data before the first v-table = cells actually built
-    std::size_t built = hx::P::dispatch_data.size();
-    for (auto& c : b.comp->classes)
-        built = std::min<std::size_t>(
-            built,
-            (*c.static_vptr + c.first_slot) - hx::P::dispatch_data.data());
-    if (rep.cells != cells || built != cells)
+    // cells actually built = cells of the multi-method dispatch tables of the
+    // compiler result (the layout of the installed data is not assumed)
+    if (rep.cells != cells)
         out.push_back(
             {"wrong_cells",
              "total cells=" + std::to_string(rep.cells) + " tables=" +
-                 std::to_string(cells) + " installed=" + std::to_string(built)});
+                 std::to_string(cells)});
 }
 
 inline int report_main() {
